@@ -550,6 +550,9 @@ def store_subscript(E, obj, slc_node, v, node):
                 raise Unsupported('None column')
             obj.cols[idx] = E.new_arr(obj.n, _elem_type(e), (lambda i, e=e: e), 'series')
         return
+    if isinstance(obj, Arr) and getattr(obj, 'lead', None) is not None:
+        from . import grid
+        return grid.grid_store(E, obj, idx, v, node)
     if isinstance(obj, Arr):
         return arr_store(E, obj, idx, v, node)
     raise Unsupported('store into %r' % (obj,))
